@@ -83,7 +83,12 @@ func (c *Cluster) serveFrame(addr string, s *Server, f *Frame, frameNo int, comp
 		case kind == "exists":
 			send(&pb.GetResponse{Result: &pb.Result{Exists: proto.Bool(false)}}, nil, nil)
 		default:
-			send(&pb.GetResponse{Result: &pb.Result{AssociatedCellCount: proto.Int32(int32(len(r.Cells)))}}, nil, r.Cells)
+			var resp proto.Message = &pb.GetResponse{Result: &pb.Result{AssociatedCellCount: proto.Int32(int32(len(r.Cells)))}}
+			cells := r.Cells
+			if c.RespHook != nil {
+				resp, cells = c.RespHook(kind, req.GetGet().GetRow(), resp, cells)
+			}
+			send(resp, nil, cells)
 		}
 	case *pb.MutateRequest:
 		kind := strings.ToLower(req.GetMutation().GetMutateType().String())
@@ -93,7 +98,12 @@ func (c *Cluster) serveFrame(addr string, s *Server, f *Frame, frameNo int, comp
 		case r.Class != "":
 			send(nil, excOf(r), nil)
 		default:
-			send(&pb.MutateResponse{Processed: proto.Bool(true), Result: &pb.Result{AssociatedCellCount: proto.Int32(int32(len(r.Cells)))}}, nil, r.Cells)
+			var resp proto.Message = &pb.MutateResponse{Processed: proto.Bool(true), Result: &pb.Result{AssociatedCellCount: proto.Int32(int32(len(r.Cells)))}}
+			cells := r.Cells
+			if c.RespHook != nil {
+				resp, cells = c.RespHook(kind, req.GetMutation().GetRow(), resp, cells)
+			}
+			send(resp, nil, cells)
 		}
 	case *pb.ScanRequest:
 		if string(req.GetRegion().GetValue()) == "hbase:meta,,1" && req.ScannerId == nil {
